@@ -131,258 +131,269 @@ pub struct Rec {
 
 pub type SharedRec = Arc<Mutex<Rec>>;
 
-#[derive(Clone)]
-pub struct TestLifecycle {
-    pub rec: SharedRec,
-    /// Addresses of the command targets (host, node, lane) for `Act::Send`.
-    pub targets: Arc<Vec<(Option<String>, String, String)>>,
-    pub commanders: Arc<Mutex<HashMap<u32, Commander<TestAgent>>>>,
-    /// The commanders of the first `eager` targets are created in `on_start` (the others when first used).
-    pub eager: u32,
-}
-
-fn key_of_m1(s: &str) -> i32 {
+pub(crate) fn key_of_m1(s: &str) -> i32 {
     s.strip_prefix('k').and_then(|r| r.parse().ok()).unwrap_or(i32::MIN)
 }
 
-impl TestLifecycle {
-    fn act<'a>(&self, context: HandlerContext<TestAgent>, act: Act) -> BoxEventHandler<'a, TestAgent> {
-        let rec = self.rec.clone();
-        match act {
-            Act::SetV { lane: 0, v } => context.set_value(TestAgent::V1, v).boxed(),
-            Act::SetV { v, .. } => context.set_value(TestAgent::V2, v).boxed(),
-            Act::Upd { lane: 0, k, v } => context.update(TestAgent::M1, m1_key(k), v).boxed(),
-            Act::Upd { lane: 1, k, v } => context.update(TestAgent::M2, k, v).boxed(),
-            Act::Upd { k, v, .. } => context.update(TestAgent::M3, k, v).boxed(),
-            Act::Rem { lane: 0, k } => context.remove(TestAgent::M1, m1_key(k)).boxed(),
-            Act::Rem { lane: 1, k } => context.remove(TestAgent::M2, k).boxed(),
-            Act::Rem { k, .. } => context.remove(TestAgent::M3, k).boxed(),
-            Act::Xf { lane: 0, k, v } => context.transform_entry(TestAgent::M1, m1_key(k), move |_| Some(v)).boxed(),
-            Act::Xf { lane: 1, k, v } => context.transform_entry(TestAgent::M2, k, move |_| Some(v)).boxed(),
-            Act::Xf { k, v, .. } => context.transform_entry(TestAgent::M3, k, move |_| Some(v)).boxed(),
-            Act::XfRem { lane: 0, k } => context.transform_entry(TestAgent::M1, m1_key(k), |_: Option<&u64>| None).boxed(),
-            Act::XfRem { lane: 1, k } => context.transform_entry(TestAgent::M2, k, |_: Option<&u64>| None).boxed(),
-            Act::XfRem { k, .. } => context.transform_entry(TestAgent::M3, k, |_: Option<&u64>| None).boxed(),
-            Act::Fail => context.fail::<(), _>(std::io::Error::other("scripted handler failure")).boxed(),
-            Act::Clr { lane: 0 } => context.clear(TestAgent::M1).boxed(),
-            Act::Clr { lane: 1 } => context.clear(TestAgent::M2).boxed(),
-            Act::Clr { .. } => context.clear(TestAgent::M3).boxed(),
-            Act::Sup { first, n } => {
-                let hs: Vec<BoxEventHandler<'a, TestAgent>> = (0..n as u64)
-                    .map(|i| {
-                        let rec = rec.clone();
-                        let item = first + i;
-                        context
-                            .effect(move || rec.lock().supplied.push((ticket(), item)))
-                            .followed_by(context.supply(TestAgent::S1, item))
-                            .boxed()
-                    })
-                    .collect();
-                Sequentially::new(hs).boxed()
-            }
-            Act::SetS { store: 0, v } => context.set_value(TestAgent::VS, v).boxed(),
-            Act::SetS { v, .. } => context.set_value(TestAgent::VT, v).boxed(),
-            Act::UpdS { k, v } => context.update(TestAgent::MS, m1_key(k), v).boxed(),
-            Act::RemS { k } => context.remove(TestAgent::MS, m1_key(k)).boxed(),
-            Act::ClrS => context.clear(TestAgent::MS).boxed(),
-            Act::Send { target, v, mode } => {
-                let (host, node, lane) = self.targets.get(target as usize).cloned().unwrap_or_else(|| (None, "/none".to_string(), "none".to_string()));
-                let record = context.effect(move || rec.lock().sent.push((ticket(), target, v, mode)));
-                if mode == 0 {
-                    record.followed_by(context.send_command(host.as_deref(), node.as_str(), lane.as_str(), v)).boxed()
-                } else {
-                    let existing = self.commanders.lock().get(&target).copied();
-                    match existing {
-                        Some(c) => {
-                            if mode == 1 {
-                                record.followed_by(c.send(v)).boxed()
-                            } else {
-                                record.followed_by(c.send_queued(v)).boxed()
+/// The recording lifecycle, written once and instantiated for every agent type of the engine: the
+/// derived `TestAgent` and the hand-written `SelectAgent` (module `selectdef`), which has the same
+/// fields and `#[projections]`. `$m3k` is the key type of lane `m3` (i32 for the derived agent; u64
+/// for the select agent, whose `m3` shares one decoder between keys and values).
+macro_rules! define_lifecycle {
+    ($lc:ident, $agent:ident, $m3k:ty) => {
+        #[derive(Clone)]
+        pub struct $lc {
+            pub rec: SharedRec,
+            /// Addresses of the command targets (host, node, lane) for `Act::Send`.
+            pub targets: Arc<Vec<(Option<String>, String, String)>>,
+            pub commanders: Arc<Mutex<HashMap<u32, Commander<$agent>>>>,
+            /// The commanders of the first `eager` targets are created in `on_start` (the others when first used).
+            pub eager: u32,
+        }
+
+        impl $lc {
+            fn act<'a>(&self, context: HandlerContext<$agent>, act: Act) -> BoxEventHandler<'a, $agent> {
+                let rec = self.rec.clone();
+                match act {
+                    Act::SetV { lane: 0, v } => context.set_value($agent::V1, v).boxed(),
+                    Act::SetV { v, .. } => context.set_value($agent::V2, v).boxed(),
+                    Act::Upd { lane: 0, k, v } => context.update($agent::M1, m1_key(k), v).boxed(),
+                    Act::Upd { lane: 1, k, v } => context.update($agent::M2, k, v).boxed(),
+                    Act::Upd { k, v, .. } => context.update($agent::M3, k as $m3k, v).boxed(),
+                    Act::Rem { lane: 0, k } => context.remove($agent::M1, m1_key(k)).boxed(),
+                    Act::Rem { lane: 1, k } => context.remove($agent::M2, k).boxed(),
+                    Act::Rem { k, .. } => context.remove($agent::M3, k as $m3k).boxed(),
+                    Act::Xf { lane: 0, k, v } => context.transform_entry($agent::M1, m1_key(k), move |_| Some(v)).boxed(),
+                    Act::Xf { lane: 1, k, v } => context.transform_entry($agent::M2, k, move |_| Some(v)).boxed(),
+                    Act::Xf { k, v, .. } => context.transform_entry($agent::M3, k as $m3k, move |_| Some(v)).boxed(),
+                    Act::XfRem { lane: 0, k } => context.transform_entry($agent::M1, m1_key(k), |_: Option<&u64>| None).boxed(),
+                    Act::XfRem { lane: 1, k } => context.transform_entry($agent::M2, k, |_: Option<&u64>| None).boxed(),
+                    Act::XfRem { k, .. } => context.transform_entry($agent::M3, k as $m3k, |_: Option<&u64>| None).boxed(),
+                    Act::Fail => context.fail::<(), _>(std::io::Error::other("scripted handler failure")).boxed(),
+                    Act::Clr { lane: 0 } => context.clear($agent::M1).boxed(),
+                    Act::Clr { lane: 1 } => context.clear($agent::M2).boxed(),
+                    Act::Clr { .. } => context.clear($agent::M3).boxed(),
+                    Act::Sup { first, n } => {
+                        let hs: Vec<BoxEventHandler<'a, $agent>> = (0..n as u64)
+                            .map(|i| {
+                                let rec = rec.clone();
+                                let item = first + i;
+                                context
+                                    .effect(move || rec.lock().supplied.push((ticket(), item)))
+                                    .followed_by(context.supply($agent::S1, item))
+                                    .boxed()
+                            })
+                            .collect();
+                        Sequentially::new(hs).boxed()
+                    }
+                    Act::SetS { store: 0, v } => context.set_value($agent::VS, v).boxed(),
+                    Act::SetS { v, .. } => context.set_value($agent::VT, v).boxed(),
+                    Act::UpdS { k, v } => context.update($agent::MS, m1_key(k), v).boxed(),
+                    Act::RemS { k } => context.remove($agent::MS, m1_key(k)).boxed(),
+                    Act::ClrS => context.clear($agent::MS).boxed(),
+                    Act::Send { target, v, mode } => {
+                        let (host, node, lane) = self.targets.get(target as usize).cloned().unwrap_or_else(|| (None, "/none".to_string(), "none".to_string()));
+                        let record = context.effect(move || rec.lock().sent.push((ticket(), target, v, mode)));
+                        if mode == 0 {
+                            record.followed_by(context.send_command(host.as_deref(), node.as_str(), lane.as_str(), v)).boxed()
+                        } else {
+                            let existing = self.commanders.lock().get(&target).copied();
+                            match existing {
+                                Some(c) => {
+                                    if mode == 1 {
+                                        record.followed_by(c.send(v)).boxed()
+                                    } else {
+                                        record.followed_by(c.send_queued(v)).boxed()
+                                    }
+                                }
+                                None => {
+                                    let commanders = self.commanders.clone();
+                                    record
+                                        .followed_by(context.create_commander(host.as_deref(), node.as_str(), lane.as_str()).and_then(move |c: Commander<$agent>| {
+                                            commanders.lock().insert(target, c);
+                                            if mode == 1 {
+                                                c.send(v)
+                                            } else {
+                                                c.send_queued(v)
+                                            }
+                                        }))
+                                        .boxed()
+                                }
                             }
                         }
-                        None => {
-                            let commanders = self.commanders.clone();
-                            record
-                                .followed_by(context.create_commander(host.as_deref(), node.as_str(), lane.as_str()).and_then(move |c: Commander<TestAgent>| {
-                                    commanders.lock().insert(target, c);
-                                    if mode == 1 {
-                                        c.send(v)
-                                    } else {
-                                        c.send_queued(v)
-                                    }
-                                }))
-                                .boxed()
-                        }
                     }
-                }
-            }
-            Act::Dump => context
-                .get_value(TestAgent::VS)
-                .and_then(move |vs| {
-                    context.get_value(TestAgent::VT).and_then(move |vt| {
-                        context.get_map(TestAgent::MS).and_then(move |ms: HashMap<String, u64>| {
-                            context.effect(move || {
-                                let ms = ms.iter().map(|(k, v)| (key_of_m1(k), *v)).collect();
-                                rec.lock().dumps.push((ticket(), vs, vt, ms));
+                    Act::Dump => context
+                        .get_value($agent::VS)
+                        .and_then(move |vs| {
+                            context.get_value($agent::VT).and_then(move |vt| {
+                                context.get_map($agent::MS).and_then(move |ms: HashMap<String, u64>| {
+                                    context.effect(move || {
+                                        let ms = ms.iter().map(|(k, v)| (key_of_m1(k), *v)).collect();
+                                        rec.lock().dumps.push((ticket(), vs, vt, ms));
+                                    })
+                                })
                             })
                         })
-                    })
+                        .boxed(),
+                    Act::Stop => context.stop().boxed(),
+                }
+            }
+        }
+
+        #[lifecycle($agent)]
+        impl $lc {
+            #[on_start]
+            fn on_start(&self, context: HandlerContext<$agent>) -> impl EventHandler<$agent> {
+                let rec = self.rec.clone();
+                let mut hs: Vec<BoxEventHandler<'_, $agent>> = vec![context.effect(move || rec.lock().started = Some(ticket())).boxed()];
+                for target in 0..self.eager.min(self.targets.len() as u32) {
+                    let (host, node, lane) = self.targets[target as usize].clone();
+                    let commanders = self.commanders.clone();
+                    hs.push(
+                        context
+                            .create_commander(host.as_deref(), node.as_str(), lane.as_str())
+                            .and_then(move |c: Commander<$agent>| {
+                                context.effect(move || {
+                                    commanders.lock().insert(target, c);
+                                })
+                            })
+                            .boxed(),
+                    );
+                }
+                Sequentially::new(hs)
+            }
+
+            #[on_stop]
+            fn on_stop(&self, context: HandlerContext<$agent>) -> impl EventHandler<$agent> {
+                let rec = self.rec.clone();
+                context.effect(move || rec.lock().stopped = Some(ticket()))
+            }
+
+            #[on_command(cmd)]
+            fn on_cmd<'a>(&'a self, context: HandlerContext<$agent>, value: &Cmd) -> impl EventHandler<$agent> + 'a {
+                let rec = self.rec.clone();
+                let id = value.id;
+                let acts: Vec<BoxEventHandler<'a, $agent>> = value.acts.iter().cloned().map(|a| self.act(context, a)).collect();
+                context.effect(move || rec.lock().cmd_trace.push((ticket(), id))).followed_by(Sequentially::new(acts))
+            }
+
+            #[on_event(v1)]
+            fn v1_event(&self, context: HandlerContext<$agent>, value: &u64) -> impl EventHandler<$agent> {
+                let (rec, v) = (self.rec.clone(), *value);
+                context.effect(move || rec.lock().value_events[0].push((ticket(), v)))
+            }
+
+            #[on_set(v1)]
+            fn v1_set(&self, context: HandlerContext<$agent>, value: &u64, prev: Option<u64>) -> impl EventHandler<$agent> {
+                let (rec, v) = (self.rec.clone(), *value);
+                context.effect(move || rec.lock().value_hist[0].push((ticket(), prev, v)))
+            }
+
+            #[on_event(v2)]
+            fn v2_event(&self, context: HandlerContext<$agent>, value: &u64) -> impl EventHandler<$agent> {
+                let (rec, v) = (self.rec.clone(), *value);
+                context.effect(move || rec.lock().value_events[1].push((ticket(), v)))
+            }
+
+            #[on_set(v2)]
+            fn v2_set(&self, context: HandlerContext<$agent>, value: &u64, prev: Option<u64>) -> impl EventHandler<$agent> {
+                let (rec, v) = (self.rec.clone(), *value);
+                context.effect(move || rec.lock().value_hist[1].push((ticket(), prev, v)))
+            }
+
+            #[on_update(m1)]
+            fn m1_update(&self, context: HandlerContext<$agent>, map: &HashMap<String, u64>, key: String, prev: Option<u64>, new: &u64) -> impl EventHandler<$agent> {
+                let (rec, v, n) = (self.rec.clone(), *new, map.len());
+                context.effect(move || {
+                    let mut r = rec.lock();
+                    r.map_hist[0].push((ticket(), MapEv::Upd { k: key_of_m1(&key), prev, new: v }));
+                    r.map_sizes[0].push(n);
                 })
-                .boxed(),
-            Act::Stop => context.stop().boxed(),
+            }
+
+            #[on_remove(m1)]
+            fn m1_remove(&self, context: HandlerContext<$agent>, map: &HashMap<String, u64>, key: String, prev: u64) -> impl EventHandler<$agent> {
+                let (rec, n) = (self.rec.clone(), map.len());
+                context.effect(move || {
+                    let mut r = rec.lock();
+                    r.map_hist[0].push((ticket(), MapEv::Rem { k: key_of_m1(&key), prev }));
+                    r.map_sizes[0].push(n);
+                })
+            }
+
+            #[on_clear(m1)]
+            fn m1_clear(&self, context: HandlerContext<$agent>, prev: HashMap<String, u64>) -> impl EventHandler<$agent> {
+                let rec = self.rec.clone();
+                context.effect(move || {
+                    let mut r = rec.lock();
+                    let prev = prev.iter().map(|(k, v)| (key_of_m1(k), *v)).collect();
+                    r.map_hist[0].push((ticket(), MapEv::Clr { prev }));
+                    r.map_sizes[0].push(0);
+                })
+            }
+
+            #[on_update(m2)]
+            fn m2_update(&self, context: HandlerContext<$agent>, map: &BTreeMap<i32, u64>, key: i32, prev: Option<u64>, new: &u64) -> impl EventHandler<$agent> {
+                let (rec, v, n) = (self.rec.clone(), *new, map.len());
+                context.effect(move || {
+                    let mut r = rec.lock();
+                    r.map_hist[1].push((ticket(), MapEv::Upd { k: key, prev, new: v }));
+                    r.map_sizes[1].push(n);
+                })
+            }
+
+            #[on_remove(m2)]
+            fn m2_remove(&self, context: HandlerContext<$agent>, map: &BTreeMap<i32, u64>, key: i32, prev: u64) -> impl EventHandler<$agent> {
+                let (rec, n) = (self.rec.clone(), map.len());
+                context.effect(move || {
+                    let mut r = rec.lock();
+                    r.map_hist[1].push((ticket(), MapEv::Rem { k: key, prev }));
+                    r.map_sizes[1].push(n);
+                })
+            }
+
+            #[on_clear(m2)]
+            fn m2_clear(&self, context: HandlerContext<$agent>, prev: BTreeMap<i32, u64>) -> impl EventHandler<$agent> {
+                let rec = self.rec.clone();
+                context.effect(move || {
+                    let mut r = rec.lock();
+                    r.map_hist[1].push((ticket(), MapEv::Clr { prev }));
+                    r.map_sizes[1].push(0);
+                })
+            }
+
+            #[on_update(m3)]
+            fn m3_update(&self, context: HandlerContext<$agent>, map: &HashMap<$m3k, u64>, key: $m3k, prev: Option<u64>, new: &u64) -> impl EventHandler<$agent> {
+                let (rec, v, n) = (self.rec.clone(), *new, map.len());
+                context.effect(move || {
+                    let mut r = rec.lock();
+                    r.map_hist[2].push((ticket(), MapEv::Upd { k: key as i32, prev, new: v }));
+                    r.map_sizes[2].push(n);
+                })
+            }
+
+            #[on_remove(m3)]
+            fn m3_remove(&self, context: HandlerContext<$agent>, map: &HashMap<$m3k, u64>, key: $m3k, prev: u64) -> impl EventHandler<$agent> {
+                let (rec, n) = (self.rec.clone(), map.len());
+                context.effect(move || {
+                    let mut r = rec.lock();
+                    r.map_hist[2].push((ticket(), MapEv::Rem { k: key as i32, prev }));
+                    r.map_sizes[2].push(n);
+                })
+            }
+
+            #[on_clear(m3)]
+            fn m3_clear(&self, context: HandlerContext<$agent>, prev: HashMap<$m3k, u64>) -> impl EventHandler<$agent> {
+                let rec = self.rec.clone();
+                context.effect(move || {
+                    let mut r = rec.lock();
+                    r.map_hist[2].push((ticket(), MapEv::Clr { prev: prev.into_iter().map(|(k, v)| (k as i32, v)).collect() }));
+                    r.map_sizes[2].push(0);
+                })
+            }
         }
-    }
+    };
 }
 
-#[lifecycle(TestAgent)]
-impl TestLifecycle {
-    #[on_start]
-    fn on_start(&self, context: HandlerContext<TestAgent>) -> impl EventHandler<TestAgent> {
-        let rec = self.rec.clone();
-        let mut hs: Vec<BoxEventHandler<'_, TestAgent>> = vec![context.effect(move || rec.lock().started = Some(ticket())).boxed()];
-        for target in 0..self.eager.min(self.targets.len() as u32) {
-            let (host, node, lane) = self.targets[target as usize].clone();
-            let commanders = self.commanders.clone();
-            hs.push(
-                context
-                    .create_commander(host.as_deref(), node.as_str(), lane.as_str())
-                    .and_then(move |c: Commander<TestAgent>| {
-                        context.effect(move || {
-                            commanders.lock().insert(target, c);
-                        })
-                    })
-                    .boxed(),
-            );
-        }
-        Sequentially::new(hs)
-    }
-
-    #[on_stop]
-    fn on_stop(&self, context: HandlerContext<TestAgent>) -> impl EventHandler<TestAgent> {
-        let rec = self.rec.clone();
-        context.effect(move || rec.lock().stopped = Some(ticket()))
-    }
-
-    #[on_command(cmd)]
-    fn on_cmd<'a>(&'a self, context: HandlerContext<TestAgent>, value: &Cmd) -> impl EventHandler<TestAgent> + 'a {
-        let rec = self.rec.clone();
-        let id = value.id;
-        let acts: Vec<BoxEventHandler<'a, TestAgent>> = value.acts.iter().cloned().map(|a| self.act(context, a)).collect();
-        context.effect(move || rec.lock().cmd_trace.push((ticket(), id))).followed_by(Sequentially::new(acts))
-    }
-
-    #[on_event(v1)]
-    fn v1_event(&self, context: HandlerContext<TestAgent>, value: &u64) -> impl EventHandler<TestAgent> {
-        let (rec, v) = (self.rec.clone(), *value);
-        context.effect(move || rec.lock().value_events[0].push((ticket(), v)))
-    }
-
-    #[on_set(v1)]
-    fn v1_set(&self, context: HandlerContext<TestAgent>, value: &u64, prev: Option<u64>) -> impl EventHandler<TestAgent> {
-        let (rec, v) = (self.rec.clone(), *value);
-        context.effect(move || rec.lock().value_hist[0].push((ticket(), prev, v)))
-    }
-
-    #[on_event(v2)]
-    fn v2_event(&self, context: HandlerContext<TestAgent>, value: &u64) -> impl EventHandler<TestAgent> {
-        let (rec, v) = (self.rec.clone(), *value);
-        context.effect(move || rec.lock().value_events[1].push((ticket(), v)))
-    }
-
-    #[on_set(v2)]
-    fn v2_set(&self, context: HandlerContext<TestAgent>, value: &u64, prev: Option<u64>) -> impl EventHandler<TestAgent> {
-        let (rec, v) = (self.rec.clone(), *value);
-        context.effect(move || rec.lock().value_hist[1].push((ticket(), prev, v)))
-    }
-
-    #[on_update(m1)]
-    fn m1_update(&self, context: HandlerContext<TestAgent>, map: &HashMap<String, u64>, key: String, prev: Option<u64>, new: &u64) -> impl EventHandler<TestAgent> {
-        let (rec, v, n) = (self.rec.clone(), *new, map.len());
-        context.effect(move || {
-            let mut r = rec.lock();
-            r.map_hist[0].push((ticket(), MapEv::Upd { k: key_of_m1(&key), prev, new: v }));
-            r.map_sizes[0].push(n);
-        })
-    }
-
-    #[on_remove(m1)]
-    fn m1_remove(&self, context: HandlerContext<TestAgent>, map: &HashMap<String, u64>, key: String, prev: u64) -> impl EventHandler<TestAgent> {
-        let (rec, n) = (self.rec.clone(), map.len());
-        context.effect(move || {
-            let mut r = rec.lock();
-            r.map_hist[0].push((ticket(), MapEv::Rem { k: key_of_m1(&key), prev }));
-            r.map_sizes[0].push(n);
-        })
-    }
-
-    #[on_clear(m1)]
-    fn m1_clear(&self, context: HandlerContext<TestAgent>, prev: HashMap<String, u64>) -> impl EventHandler<TestAgent> {
-        let rec = self.rec.clone();
-        context.effect(move || {
-            let mut r = rec.lock();
-            let prev = prev.iter().map(|(k, v)| (key_of_m1(k), *v)).collect();
-            r.map_hist[0].push((ticket(), MapEv::Clr { prev }));
-            r.map_sizes[0].push(0);
-        })
-    }
-
-    #[on_update(m2)]
-    fn m2_update(&self, context: HandlerContext<TestAgent>, map: &BTreeMap<i32, u64>, key: i32, prev: Option<u64>, new: &u64) -> impl EventHandler<TestAgent> {
-        let (rec, v, n) = (self.rec.clone(), *new, map.len());
-        context.effect(move || {
-            let mut r = rec.lock();
-            r.map_hist[1].push((ticket(), MapEv::Upd { k: key, prev, new: v }));
-            r.map_sizes[1].push(n);
-        })
-    }
-
-    #[on_remove(m2)]
-    fn m2_remove(&self, context: HandlerContext<TestAgent>, map: &BTreeMap<i32, u64>, key: i32, prev: u64) -> impl EventHandler<TestAgent> {
-        let (rec, n) = (self.rec.clone(), map.len());
-        context.effect(move || {
-            let mut r = rec.lock();
-            r.map_hist[1].push((ticket(), MapEv::Rem { k: key, prev }));
-            r.map_sizes[1].push(n);
-        })
-    }
-
-    #[on_clear(m2)]
-    fn m2_clear(&self, context: HandlerContext<TestAgent>, prev: BTreeMap<i32, u64>) -> impl EventHandler<TestAgent> {
-        let rec = self.rec.clone();
-        context.effect(move || {
-            let mut r = rec.lock();
-            r.map_hist[1].push((ticket(), MapEv::Clr { prev }));
-            r.map_sizes[1].push(0);
-        })
-    }
-
-    #[on_update(m3)]
-    fn m3_update(&self, context: HandlerContext<TestAgent>, map: &HashMap<i32, u64>, key: i32, prev: Option<u64>, new: &u64) -> impl EventHandler<TestAgent> {
-        let (rec, v, n) = (self.rec.clone(), *new, map.len());
-        context.effect(move || {
-            let mut r = rec.lock();
-            r.map_hist[2].push((ticket(), MapEv::Upd { k: key, prev, new: v }));
-            r.map_sizes[2].push(n);
-        })
-    }
-
-    #[on_remove(m3)]
-    fn m3_remove(&self, context: HandlerContext<TestAgent>, map: &HashMap<i32, u64>, key: i32, prev: u64) -> impl EventHandler<TestAgent> {
-        let (rec, n) = (self.rec.clone(), map.len());
-        context.effect(move || {
-            let mut r = rec.lock();
-            r.map_hist[2].push((ticket(), MapEv::Rem { k: key, prev }));
-            r.map_sizes[2].push(n);
-        })
-    }
-
-    #[on_clear(m3)]
-    fn m3_clear(&self, context: HandlerContext<TestAgent>, prev: HashMap<i32, u64>) -> impl EventHandler<TestAgent> {
-        let rec = self.rec.clone();
-        context.effect(move || {
-            let mut r = rec.lock();
-            r.map_hist[2].push((ticket(), MapEv::Clr { prev: prev.into_iter().collect() }));
-            r.map_sizes[2].push(0);
-        })
-    }
-}
+define_lifecycle!(TestLifecycle, TestAgent, i32);
+pub(crate) use define_lifecycle;
